@@ -19,6 +19,7 @@ CEIL = z3.Function("ceil", z3.RealSort(), z3.IntSort())
 LOG = z3.Function("log", z3.RealSort(), z3.RealSort())
 EXP = z3.Function("exp", z3.RealSort(), z3.RealSort())
 STR_OF_INT = z3.Function("str_of_int", z3.IntSort(), z3.StringSort())
+CLASS_OF = z3.Function("class_of", z3.IntSort(), z3.IntSort())     # dynamic class of a reference
 # dynamic class membership: one predicate per class name
 _isinst = {}
 
@@ -437,6 +438,33 @@ class State:
     def set_heapok(self, lst, b):
         self.heap["heapok"] = z3.Store(self.heapok_arr(), lst, b if not isinstance(b, bool) else z3.BoolVal(b))
 
+    def nodup_arr(self):
+        return self.harr("nodup", lambda: z3.ArraySort(REF, z3.BoolSort()))
+
+    def nodup(self, lst):
+        """duplicate-free flag of a reference list: justifies `remove`/`heappop` on the mem view and the link len==0 <=> no member"""
+        return z3.Select(self.nodup_arr(), lst)
+
+    def set_nodup(self, lst, b):
+        self.heap["nodup"] = z3.Store(self.nodup_arr(), lst, b if not isinstance(b, bool) else z3.BoolVal(b))
+
+    def assume_link(self, lst):
+        """view axiom of duplicate-free reference lists (a fact about real lists, not an invariant to prove): len == 0 <=> no member"""
+        x = z3.Const(fresh_name("x_lk"), REF)
+        n = self.length(lst)
+        self.assume(z3.Implies(self.nodup(lst), z3.And(z3.Implies(n == 0, z3.ForAll([x], z3.Not(self.mem(lst, x)))),
+                                                       z3.Implies(z3.ForAll([x], z3.Not(self.mem(lst, x))), n == 0), n >= 0)))
+
+    def pos_view(self, lst, ety=("ref", "Order")):
+        """Skolem position of members of a duplicate-free reference list: returns pos (z3 function) and the defining facts (true of real lists)"""
+        pos = z3.Function(fresh_name("pos"), REF, z3.IntSort())
+        i = z3.Int(fresh_name("i_pv")); x = z3.Const(fresh_name("x_pv"), REF)
+        el = self.elems(lst, ety); n = self.length(lst)
+        facts = z3.Implies(self.nodup(lst), z3.And(
+            z3.ForAll([i], z3.Implies(z3.And(0 <= i, i < n), z3.And(self.mem(lst, z3.Select(el, i)), pos(z3.Select(el, i)) == i))),
+            z3.ForAll([x], z3.Implies(self.mem(lst, x), z3.And(0 <= pos(x), pos(x) < n, z3.Select(el, pos(x)) == x)))))
+        return pos, facts
+
     def norm_index(self, lst, idx):
         n = self.length(lst)
         return z3.If(idx < 0, idx + n, idx), n
@@ -444,6 +472,8 @@ class State:
     def list_get(self, lst, idx, what="index"):
         ety = lst.ty[1]
         i, n = self.norm_index(lst.term, idx.term if isinstance(idx, V) else idx)
+        if strip_opt(ety)[0] == "ref" and not self.quiet:
+            self.assume_link(lst.term)
         self.oblige(f"{what}-in-range", z3.And(i >= 0, i < n), "implicit")
         k, a = self.el_arr(ety)
         if ety[0] == "opt":
@@ -478,6 +508,7 @@ class State:
         self.set_len(r, z3.IntVal(0))
         if strip_opt(ety)[0] == "ref":
             self.set_mem(r, z3.K(REF, z3.BoolVal(False)))
+            self.set_nodup(r, True)
         return V(("list", ety), r)
 
     # ---- dicts: dom: ref -> (key -> bool), val: ref -> (key -> sort) per (key sort, value sort)
@@ -567,8 +598,8 @@ class State:
                             self.farr(cls, field)
                             if field_type(cls, field)[0] == "opt":
                                 self.farr(cls, field, "none")
-                        elif k in ("len", "mem", "heapok", "alloc"):
-                            {"len": self.len_arr, "mem": self.mem_arr, "heapok": self.heapok_arr, "alloc": self.alloc_arr}[k]()
+                        elif k in ("len", "mem", "heapok", "alloc", "nodup"):
+                            {"len": self.len_arr, "mem": self.mem_arr, "heapok": self.heapok_arr, "alloc": self.alloc_arr, "nodup": self.nodup_arr}[k]()
                         else:
                             continue
                     if k in self.heap:
